@@ -7,22 +7,22 @@ import json, os, re, glob
 
 V = "/verif"
 NOT_BUILT = {
- "C01": "`syncReplayWal`, `replayPhysicRecord` guards + nopanic, `LogWriter`, replay-order lemma `wal_order` (§8.11) + bounded stand-in, `FastUnmarshalMultiRows` sweep",
+ "C01": "`LogWriter.Write/Switch`, `WAL.Switch`/`consumeRecordSerial` bodies (their behaviour enters the replay-order lemma as trusted descriptions), bounded stand-in for the serial consumer, `commitSnapshot`, full no-panic sweep of `FastUnmarshalMultiRows`",
  "C02": "`mergeRecRow`, `mergeRecordSchema`, dispatch of `MergeRecordLimitRows`, `InitSections`, descending searches",
- "C03": "`ReplaceFiles` typestate, marshal/unmarshal round-trip lemma, `acquire/CompactDone`, `RenameTmpFiles`",
+ "C03": "marshal/unmarshal round-trip lemma of the intent log, `acquire/CompactDone`, `RenameTmpFiles`, content preservation of the merge itself",
  "C06": "nopanic sweep of the tag/field splitters, precision multiplier overflow, `AppendFieldToCol` lemma, bounded un-escaper",
- "C07": "layer 2 (trailer, rows, WAL header, record codec), mode-byte dispatch, string/bool encoders, decoder nopanic sweep",
+ "C07": "layer 2 (trailer, chunk meta, record codec), mode byte of float/bool/string coders (integer and timestamp are built), decoder nopanic sweep",
  "C08": "other limit helpers + lemma `limit_chunking`, all other operators",
  "C09": "`Location` segment walk, `matchPreAgg`, pre-aggregation builders' folds",
  "C10": "`GenerateUUID`, `seriesByBinaryExpr`, `seriesByExprIterator`, key codecs",
  "C11": "`createShardGroup` cache, byte equality of write/read shard keys, bounded stand-in",
  "C12": "literal printers (`NumberLiteral` §8.9), `FormatDuration` lemma, plan/chunk codecs, `wf_paren`, the yacc side",
  "C13": "search entry points over `uint64set`, `DropSeries.Process`, `commitSnapshot` guard",
- "C14": "`GetExpiredShards/Indexes` of metaclient, `pruneShardGroups`, `UpdateShardDurationInfo`, coordinator min-time",
+ "C14": "`GetExpiredShards/Indexes` of metaclient, coordinator min-time",
  "C15": "element-wise equality of marshalled collections, `storeFSM.Snapshot/Restore`, `CreateShardGroup` map-order pick",
  "C16": "`wf(data)` as a single invariant, `createShards`, index groups, `CreateDatabase/RetentionPolicy`, `createVersionMeasurement` half-apply, global `Max*ID` frame scan",
- "C17": "slot codec, `slotGe`, `seekEntry`, `allEntries`, bounded file stand-in",
- "C19": "`AddRoutes`/`NewHandler` route table, `ServeHTTP` bypass prefixes, per-handler guards, privilege setters",
+ "C17": "slot codec, `seekEntry`, rotate/reopen on real files, bounded file stand-in",
+ "C19": "the route table literal of `NewHandler` (which handler a pattern gets), `ServeHTTP` bypass prefixes (`/debug/*`), privilege setters (`SetPrivilege`, `SetAdminPrivilege`), flight service handlers",
  "C20": "`genRPNElementByOp`, `CheckInRange` RPN evaluation, binary search, min-max/set indexes, decomposition-completeness lemma",
 }
 
